@@ -1236,6 +1236,10 @@ class Interp:
                 else:
                     # fork on every distinct successor (skip `unreachable` arms)
                     arms = [(v, b2) for v, b2 in t['targets']] + [('otherwise', t['otherwise'])]
+                    if isinstance(dv, tuple) and dv and dv[0] == 'discr' and len(t['targets']) == 1 and t['targets'][0][0] in (0, 1):
+                        # a two-variant discriminant tested against one value (`if let Some(x) = ..`): the other arm is the
+                        # other variant, and is recorded as such
+                        arms[-1] = (1 - t['targets'][0][0], t['otherwise'])
                     arms = [(v, b2) for v, b2 in arms if body.blocks[b2]['term']['k'] != 'unreachable' or body.blocks[b2]['stmts']]
                     if label is None:
                         label = 'switch@%s' % t['span']
@@ -1474,6 +1478,10 @@ class Interp:
                     r_ = sa.xor(sb)
                     fr.storev(dst, r_.flip() if op == 'Eq' else r_)
                     return
+            if op in ('Eq', 'Ne', 'BitXor') and isinstance(a, tuple) and a and a[0] == 'bool' and isinstance(b, tuple) and b and b[0] == 'bool':
+                # two undecided predicates compared: a boolean term over both (evaluated by the truth-table rules)
+                fr.storev(dst, ('bool', ('beq' if op == 'Eq' else 'bne', a[1], b[1])))
+                return
             if op in ('BitXor', 'Ne') and isinstance(a, tuple) and a and a[0] == 'bool' and isinstance(b, Int):
                 fr.storev(dst, a if b.v == 0 else ('bool', ('not', a[1])))
                 return
